@@ -133,35 +133,50 @@ Proof.
 Qed.
 #[export] Hint Resolve rep_robust comp_loop_robust : rb.
 
-Lemma dec_any_robust : forall fuel id, robust (dec_any fuel id).
+Lemma dany_robust : forall fuel dep id, robust (dany fuel dep id).
 Proof.
-  induction fuel as [|f IH]; intros id; cbn [dec_any]; [constructor|].
+  induction fuel as [|f IH]; intros dep id; cbn [dany]; [constructor|].
   repeat match goal with |- robust (if ?c then _ else _) => destruct c end; rb.
 Qed.
+#[export] Hint Resolve dany_robust : rb.
+Lemma dec_any_robust fuel id : robust (dec_any fuel id).
+Proof. apply dany_robust. Qed.
 #[export] Hint Resolve dec_any_robust : rb.
+Lemma dmap_robust fuel dep id : robust (dmap fuel dep id).
+Proof. unfold dmap. rb. Qed.
+#[export] Hint Resolve dmap_robust : rb.
 Lemma dec_map_robust fuel id : robust (dec_map fuel id).
-Proof. unfold dec_map. rb. Qed.
-Lemma dec_skip_robust : forall fuel id, robust (dec_skip fuel id).
+Proof. apply dmap_robust. Qed.
+Lemma dskip_robust : forall fuel dep id, robust (dskip fuel dep id).
 Proof.
-  induction fuel as [|f IH]; intros id; cbn [dec_skip]; [constructor|].
+  induction fuel as [|f IH]; intros dep id; cbn [dskip]; [constructor|].
   repeat match goal with |- robust (if ?c then _ else _) => destruct c end; rb.
 Qed.
+#[export] Hint Resolve dskip_robust : rb.
+Lemma dec_skip_robust fuel id : robust (dec_skip fuel id).
+Proof. apply dskip_robust. Qed.
 #[export] Hint Resolve dec_map_robust dec_skip_robust : rb.
 Lemma dec_struct0_robust fuel id : robust (dec_struct0 fuel id).
 Proof. unfold dec_struct0. rb. Qed.
-Lemma dec_text_robust : forall fuel id, robust (dec_text fuel id).
+Lemma dtext_robust : forall fuel dep id, robust (dtext fuel dep id).
 Proof.
-  induction fuel as [|f IH]; intros id; cbn [dec_text]; [constructor|].
+  induction fuel as [|f IH]; intros dep id; cbn [dtext]; [constructor|].
   repeat match goal with |- robust (if ?c then _ else _) => destruct c end; rb.
 Qed.
+#[export] Hint Resolve dtext_robust : rb.
+Lemma dec_text_robust fuel id : robust (dec_text fuel id).
+Proof. apply dtext_robust. Qed.
 #[export] Hint Resolve dec_struct0_robust dec_text_robust : rb.
 Lemma dec_snbt_robust fuel id : robust (dec_snbt fuel id).
 Proof. unfold dec_snbt. rb. Qed.
-Lemma dec_dyn_robust : forall fuel id, robust (dec_dyn fuel id).
+Lemma ddyn_robust : forall fuel dep id, robust (ddyn fuel dep id).
 Proof.
-  induction fuel as [|f IH]; intros id; cbn [dec_dyn]; [constructor|].
+  induction fuel as [|f IH]; intros dep id; cbn [ddyn]; [constructor|].
   repeat match goal with |- robust (if ?c then _ else _) => destruct c end; rb.
 Qed.
+#[export] Hint Resolve ddyn_robust : rb.
+Lemma dec_dyn_robust fuel id : robust (dec_dyn fuel id).
+Proof. apply ddyn_robust. Qed.
 #[export] Hint Resolve dec_snbt_robust dec_dyn_robust : rb.
 
 Lemma tee_robust {A} (d : dec A) : robust d -> robust (tee d).
@@ -179,8 +194,10 @@ Proof. destruct f; cbn [decode_hdr]; rb. Qed.
 Lemma Decode_robust {A} f (body : N -> dec A) : (forall id, robust (body id)) -> robust (Decode f body).
 Proof. intros H. unfold Decode. rb. Qed.
 
-Lemma dec_ty_robust : forall fuel t id, robust (dec_ty fuel t id).
+Lemma dty_robust : forall fuel dep t id, robust (dty fuel dep t id).
 Proof.
-  induction fuel as [|f IH]; intros t id; cbn [dec_ty]; [constructor|].
+  induction fuel as [|f IH]; intros dep t id; cbn [dty]; [constructor|].
   destruct t; rb.
 Qed.
+Lemma dec_ty_robust fuel t id : robust (dec_ty fuel t id).
+Proof. apply dty_robust. Qed.
